@@ -39,6 +39,30 @@ PROPS = {
                      'dependency contract for indexmap::IndexMap (insert appends or overwrites in place; swap_remove removes the key)'],
         not_reached=['TorrentMapShards (locks, Arc, hashbrown): shard-level frame'],
     ),
+    'C02': dict(
+        verus=['udp_swarm'], kani=[], level='proof',
+        technique='Verus contracts on the real extract_response_peers / PeerMap::announce (all sizes, all RNG outcomes, all numwant values)',
+        claim='UDP: the peer list of every announce reply is duplicate-free, a subset of the stored peers minus the announcer, at most min(numwant, max) long (non-positive numwant = max), complete when the swarm is small and at least limit-1 otherwise; index arithmetic of the two-half selection is proved safe.',
+        note='http and ws peer selection are added by later units; inline-map selection (SmallPeerMap::extract_response_peers) is a hand-off contract.',
+    ),
+    'C03': dict(
+        verus=['udp_handler', 'udp_swarm'], kani=[], level='proof',
+        technique='Verus contracts: key construction from the datagram source in TorrentMaps::announce / PeerMap::announce (request.ip_address cannot influence the post-state)',
+        claim='UDP: the address family and the IP octets handed to the per-torrent map are those of the datagram source, and the stored key is (that ip, request.port).',
+        note='recv_from glue, CanonicalSocketAddr and the http/ws paths are covered by other units or not reached.',
+    ),
+    'C06': dict(
+        verus=['udp_handler', 'udp_swarm'], kani=[], level='proof',
+        technique='Verus contracts on the real handle_request of both socket back ends (mio and io_uring) with permission preconditions on the swarm entry points',
+        claim='For every request and source: connect is always answered with the echoed transaction id; announce/scrape are answered iff the connection id is valid for the source; the reply kind, address family and transaction id are those the request calls for; the swarm is never reached without a valid id.',
+        note='validator and shard maps are contract stubs (C05 / C01 decide them); datagram I/O loops, source-port-0 filtering and one-datagram-per-datagram are not reached.',
+    ),
+    'C11': dict(
+        verus=['udp_handler'], kani=[], level='proof',
+        technique='Verus contracts: AccessList::allows against its specification; permission precondition list_allows on the swarm entry points of both UDP back ends',
+        claim='UDP: AccessList::allows equals the reference decision for every mode/list/hash; no announce reaches swarm state unless the list in force allows the hash, and a forbidden hash gets an error reply carrying the transaction id.',
+        note='http/ws gates live in async fns (not reached); reload and cleaning are decided by other units where present.',
+    ),
     'C05': dict(
         verus=[], kani=[K_UDP_VALIDATOR], level='proof',
         technique='Kani/CBMC full-domain loop-free harnesses on the real create_connection_id / connection_id_valid with the keyed hash as an uninterpreted function',
